@@ -86,6 +86,13 @@ fn run_sweep(plan: &Plan, ctx: &mut Ctx) -> R {
         clauses_in.push(labels[at..at + sz].iter().map(|v| (*v, r.bool())).collect());
         at += sz;
     }
+    // one sweep in three: the number of clauses is cut down to a multiple of 64 (word boundaries of per-clause bit sets);
+    // the variables of the dropped clauses simply do not occur
+    let mut n_occ = n_occ;
+    if plan.get_or("sweep_round", 0) != 0 && clauses_in.len() > 64 {
+        clauses_in.truncate(clauses_in.len() / 64 * 64);
+        n_occ = clauses_in.iter().flat_map(|c| c.iter().map(|(v, _)| v + 1)).max().unwrap_or(0);
+    }
     let lits: Vec<Vec<Literal>> = clauses_in.iter().map(|c| c.iter().map(|(v, p)| lit(*v, *p)).collect()).collect();
     let cnf = Cnf::new(&lits);
     let nv = cnf.num_vars();
@@ -225,6 +232,7 @@ impl World for CnfWorld {
             cfg.insert("sweep_occ".into(), occ as i64);
             cfg.insert("sweep_seed".into(), (c.next() >> 2) as i64);
             cfg.insert("sweep_shuffle".into(), (c.below(3) != 0) as i64);
+            cfg.insert("sweep_round".into(), (c.below(3) == 0) as i64);
             cfg.insert("arena".into(), 2);
             return Plan { world: "cnf".into(), target: target.into(), seed: run_seed, cfg, ops: Vec::new(), faults: Faults::Random { seed: mix(run_seed, 81), rates: [0; NUM_SITES] } };
         }
@@ -263,7 +271,9 @@ impl World for CnfWorld {
             v
         } else if big {
             let mut v = Vec::new();
-            for _ in 0..(5 + c.below(86)) {
+            // (one large formula in five has a clause count at or next to a multiple of 32)
+            let n_clauses = if c.below(5) == 0 { *c.pick(&[31u64, 32, 33, 63, 64, 65]) } else { 5 + c.below(86) };
+            for _ in 0..n_clauses {
                 let mut a = [0i64; 4];
                 let sz = match o.below(20) { 0 => 1, 1..=5 => 2, 6..=16 => 3, _ => 4 };
                 for slot in a.iter_mut().take(sz) {
@@ -473,7 +483,35 @@ impl World for CnfWorld {
                 K_HASH | K_HASH_EXTRA => {
                     // the caller's model, optionally with extra assignments the hasher was not told about
                     let mut m = model.clone();
-                    if op.k == K_HASH_EXTRA {
+                    if op.k == K_HASH_EXTRA && (op.a[3] >> 56) & 3 == 3 && nv > 0 {
+                        // an almost complete extension that falsifies as little as a short local search manages (so
+                        // that, on formulas with dozens of clauses too, the residual is a handful of literals and the
+                        // "only then" half of the statement applies): random values for the unassigned variables, a
+                        // few hundred repair flips among them, then one to three of them withdrawn again
+                        let mut lr = Rng::new(op.a[2] as u64 ^ (op.a[3] as u64).rotate_left(17));
+                        let free: Vec<usize> = (0..nv).filter(|v| m[*v].is_none()).collect();
+                        if !free.is_empty() {
+                            for v in free.iter() {
+                                m[*v] = Some(lr.bool());
+                            }
+                            for _ in 0..300 {
+                                let bad: Vec<usize> = (0..clauses.len()).filter(|ci| !clauses[*ci].is_empty() && clauses[*ci].iter().all(|(v, p)| m[*v] == Some(!*p))).collect();
+                                if bad.is_empty() {
+                                    break;
+                                }
+                                let c = &clauses[bad[lr.below(bad.len() as u64) as usize]];
+                                let cand: Vec<usize> = c.iter().map(|(v, _)| *v).filter(|v| model[*v].is_none()).collect();
+                                if cand.is_empty() {
+                                    break;
+                                }
+                                let v = cand[lr.below(cand.len() as u64) as usize];
+                                m[v] = m[v].map(|x| !x);
+                            }
+                            for _ in 0..(1 + lr.below(3)) {
+                                m[free[lr.below(free.len() as u64) as usize]] = None;
+                            }
+                        }
+                    } else if op.k == K_HASH_EXTRA {
                         // extra assignments: one variable, about one in eight, or about half of them
                         let mask: i64 = match (op.a[3] >> 56) & 3 {
                             0 => 1i64 << (op.a[2].unsigned_abs() % 60),
